@@ -141,3 +141,355 @@ Proof.
     as [c' [Hc Hm]].
   vm_compute in Hc. inversion Hc; subst. vm_compute in Hm. discriminate.
 Qed.
+
+(* ====================================================================================================== *)
+(* merge_data: values land at the right offsets, no-data elsewhere                                         *)
+(* ====================================================================================================== *)
+
+Lemma label_eqb_eq : forall a b : label, label_eqb a b = true <-> a = b.
+Proof.
+  intros [[[n1 r1] t1] c1] [[[n2 r2] t2] c2]. unfold label_eqb. split.
+  - intros H. apply andb_true_iff in H as [H Hc]. apply andb_true_iff in H as [H Ht]. apply andb_true_iff in H as [Hn Hr].
+    apply Nat.eqb_eq in Hn. apply Nat.eqb_eq in Ht. apply Bool.eqb_prop in Hc.
+    assert (r1 = r2).
+    { destruct r1, r2; simpl in Hr; try discriminate; try reflexivity. apply Nat.eqb_eq in Hr. congruence. }
+    congruence.
+  - intros H. inversion H; subst. rewrite !Nat.eqb_refl, Bool.eqb_reflx.
+    destruct r2; simpl; rewrite ?Nat.eqb_refl; reflexivity.
+Qed.
+
+Lemma label_eqb_refl : forall a, label_eqb a a = true.
+Proof. intros. apply label_eqb_eq. reflexivity. Qed.
+
+Lemma label_eqb_neq : forall a b, a <> b -> label_eqb a b = false.
+Proof. intros a b H. destruct (label_eqb a b) eqn:E; [apply label_eqb_eq in E; contradiction|reflexivity]. Qed.
+
+Lemma lookup_set_same : forall l v d v0, lookup l d = Some v0 -> lookup l (set l v d) = Some v.
+Proof.
+  induction d as [|[k w] r IH]; intros v0 H; simpl in *; [discriminate|].
+  destruct (label_eqb l k) eqn:E; simpl; rewrite E; [reflexivity|]. eapply IH; eassumption.
+Qed.
+
+Lemma lookup_set_other : forall l l' v d, l' <> l -> lookup l' (set l v d) = lookup l' d.
+Proof.
+  induction d as [|[k w] r IH]; intros Hne; simpl; [reflexivity|].
+  destruct (label_eqb l k) eqn:E; simpl.
+  - apply label_eqb_eq in E; subst k. rewrite (label_eqb_neq _ _ Hne). reflexivity.
+  - destruct (label_eqb l' k); [reflexivity|]. apply IH; assumption.
+Qed.
+
+Lemma lookup_app_new : forall l v d, lookup l d = None -> lookup l (d ++ [(l, v)]) = Some v.
+Proof.
+  induction d as [|[k w] r IH]; intros H; simpl in *; [rewrite label_eqb_refl; reflexivity|].
+  destruct (label_eqb l k); [discriminate|]. apply IH; assumption.
+Qed.
+
+Lemma lookup_app_other : forall l l' v d, l' <> l -> lookup l' (d ++ [(l, v)]) = lookup l' d.
+Proof.
+  induction d as [|[k w] r IH]; intros H; simpl; [rewrite (label_eqb_neq _ _ H); reflexivity|].
+  destruct (label_eqb l' k); [reflexivity|]. apply IH; assumption.
+Qed.
+
+Definition lcell (l : label) : bool := let '(_, _, _, c) := l in c.
+Definition lren (l : label) : option nat := let '(_, r, _, _) := l in r.
+Definition shape (nv nc : nat) (c : bool) : nat := if c then nc else nv.
+Definition cnt (st : mstate) (c : bool) : nat := if c then ccount st else vcount st.
+Definition blank_from (v : vals) (p : nat) : Prop := forall q, p <= q -> q < length v -> nth_error v q = Some None.
+
+Lemma all_none_slice : forall (v : vals) s n, blank_from v s -> s + n <= length v -> all_none (slice v s n) = true.
+Proof.
+  intros v s n Hb Hl. unfold all_none. apply forallb_forall. intros x Hx.
+  apply In_nth_error in Hx as [q Hq]. unfold slice in Hq.
+  assert (q < n).
+  { assert (q < length (firstn n (skipn s v))) by (apply nth_error_Some; congruence). rewrite firstn_length in *. lia. }
+  rewrite nth_error_firstn_lt in Hq by assumption. rewrite nth_error_skipn_add in Hq.
+  rewrite Hb in Hq by lia. inversion Hq. reflexivity.
+Qed.
+
+Lemma blank_repeat : forall n p, blank_from (repeat None n) p.
+Proof.
+  intros n p q _ Hq. rewrite repeat_length in Hq.
+  apply nth_error_repeat. assumption.
+Qed.
+
+(* one data set: when the target slice of an existing entry is blank, no renaming happens and the values are spliced in *)
+Lemma data_step_spec : forall nv nc st ind d,
+  let l0 := lbl0 d in let start := cnt st (dcell d) in let n := length (dvals d) in
+  (forall v, lookup l0 (md st) = Some v -> blank_from v start /\ length v = shape nv nc (dcell d)) ->
+  start + n <= shape nv nc (dcell d) ->
+  exists v0,
+    (lookup l0 (md st) = Some v0 \/ (lookup l0 (md st) = None /\ v0 = repeat None (shape nv nc (dcell d))))
+    /\ lookup l0 (md (data_step nv nc st ind d)) = Some (splice v0 start (dvals d))
+    /\ (forall l', l' <> l0 -> lookup l' (md (data_step nv nc st ind d)) = lookup l' (md st))
+    /\ vcount (data_step nv nc st ind d) = vcount st /\ ccount (data_step nv nc st ind d) = ccount st.
+Proof.
+  intros nv nc st ind d l0 start n Hb Hroom.
+  unfold data_step. fold l0. fold n.
+  replace (if dcell d then ccount st else vcount st) with start by reflexivity.
+  replace (if dcell d then nc else nv) with (shape nv nc (dcell d)) by reflexivity.
+  destruct (lookup l0 (md st)) as [v|] eqn:E.
+  - destruct (Hb v eq_refl) as [Hbl Hlen].
+    rewrite all_none_slice by (try assumption; lia).
+    cbn iota. rewrite E. cbn iota. rewrite E. exists v. split; [left; reflexivity|]. simpl.
+    split; [eapply lookup_set_same; eassumption|].
+    split; [intros l' Hne; apply lookup_set_other; assumption|]. split; reflexivity.
+  - cbn iota. rewrite E. cbn iota.
+    assert (HH : lookup l0 (md st ++ [(l0, repeat None (shape nv nc (dcell d)))]) = Some (repeat None (shape nv nc (dcell d))))
+      by (apply lookup_app_new; assumption).
+    rewrite HH.
+    exists (repeat None (shape nv nc (dcell d))). split; [right; split; reflexivity|]. simpl.
+    split; [eapply lookup_set_same; apply lookup_app_new; assumption|].
+    split; [|split; reflexivity].
+    intros l' Hne. rewrite lookup_set_other by assumption. apply lookup_app_other; assumption.
+Qed.
+
+Lemma blank_from_mono : forall v p p', blank_from v p -> p <= p' -> blank_from v p'.
+Proof. intros v p p' H Hle q Hq Hl. apply H; lia. Qed.
+
+Lemma slice_splice_before : forall (v w : vals) s s' n',
+  s' + n' <= s -> s + length w <= length v -> slice (splice v s w) s' n' = slice v s' n'.
+Proof.
+  intros v w s s' n' H1 H2. unfold slice, splice.
+  rewrite skipn_app, firstn_length, firstn_app.
+  rewrite skipn_length, firstn_length.
+  replace (n' - (Nat.min s (length v) - s')) with 0 by lia. rewrite firstn_O, app_nil_r.
+  rewrite skipn_firstn_comm, firstn_firstn. f_equal. lia.
+Qed.
+
+Lemma blank_splice : forall (v w : vals) s p,
+  blank_from v s -> s + length w <= length v -> s + length w <= p -> blank_from (splice v s w) p.
+Proof.
+  intros v w s p Hb Hl Hp q Hq Hlen. rewrite splice_length in Hlen by assumption.
+  rewrite nth_error_splice_out by (try assumption; right; lia). apply Hb; lia.
+Qed.
+
+Section MergeData.
+Variables nv nc : nat.
+
+Definition isize (i : inp) (c : bool) : nat := if c then length (cs i) else length (vs i).
+Definition total (l : list inp) (c : bool) : nat := if c then length (concat (map cs l)) else length (merge_verts l).
+Definition doff (l : list inp) (k : nat) (c : bool) : nat := if c then coff l k else voff l k.
+
+Definition wf_inp (i : inp) : Prop :=
+  NoDup (map lbl0 (ds i)) /\ Forall (fun d => length (dvals d) = isize i (dcell d)) (ds i).
+
+Lemma total_app : forall l i c, total (l ++ [i]) c = total l c + isize i c.
+Proof.
+  intros l i [|]; unfold total, isize, merge_verts; rewrite map_app, concat_app, app_length; simpl;
+    rewrite app_nil_r; reflexivity.
+Qed.
+
+Lemma doff_total : forall l c, doff l (length l) c = total l c.
+Proof. intros l [|]; unfold doff, total, coff, voff; rewrite firstn_all; reflexivity. Qed.
+
+Lemma doff_app : forall l i k c, k <= length l -> doff (l ++ [i]) k c = doff l k c.
+Proof.
+  intros l i k [|] H; unfold doff, coff, voff; rewrite firstn_app;
+    replace (k - length l) with 0 by lia; rewrite firstn_O, app_nil_r; reflexivity.
+Qed.
+
+Lemma doff_le : forall l k i c, nth_error l k = Some i -> doff l k c + isize i c <= total l c.
+Proof.
+  intros l k i c H. destruct c; unfold doff, total, isize.
+  - revert k i H. induction l as [|a r IH]; intros [|k] i H; simpl in H; try discriminate.
+    + inversion H; subst. unfold coff. simpl. rewrite app_length. lia.
+    + rewrite coff_cons. simpl. rewrite app_length. specialize (IH k i H). lia.
+  - apply voff_le; assumption.
+Qed.
+
+Record GInv (done : list inp) (st : mstate) : Prop := {
+  g_v : vcount st = total done false;
+  g_c : ccount st = total done true;
+  g_wf : forall l v, lookup l (md st) = Some v ->
+         lren l = None /\ length v = shape nv nc (lcell l) /\ blank_from v (cnt st (lcell l));
+  g_rec : forall k i d, nth_error done k = Some i -> In d (ds i) ->
+          exists v, lookup (lbl0 d) (md st) = Some v
+                 /\ slice v (doff done k (dcell d)) (length (dvals d)) = dvals d
+}.
+
+Record IInv (done : list inp) (i : inp) (st0 : mstate) (pr : list dat) (st : mstate) : Prop := {
+  i_v : vcount st = vcount st0;
+  i_c : ccount st = ccount st0;
+  i_wf : forall l v, lookup l (md st) = Some v ->
+         lren l = None /\ length v = shape nv nc (lcell l)
+         /\ blank_from v (cnt st0 (lcell l) + isize i (lcell l))
+         /\ (~ In l (map lbl0 pr) -> blank_from v (cnt st0 (lcell l)));
+  i_rec : forall k i' d, nth_error done k = Some i' -> In d (ds i') ->
+          exists v, lookup (lbl0 d) (md st) = Some v
+                 /\ slice v (doff done k (dcell d)) (length (dvals d)) = dvals d;
+  i_cur : forall d, In d pr ->
+          exists v, lookup (lbl0 d) (md st) = Some v
+                 /\ slice v (cnt st0 (dcell d)) (length (dvals d)) = dvals d
+}.
+
+Lemma cnt_eq : forall st st0 c, vcount st = vcount st0 -> ccount st = ccount st0 -> cnt st c = cnt st0 c.
+Proof. intros st st0 [|] H1 H2; unfold cnt; assumption. Qed.
+
+Lemma lcell_lbl0 : forall d, lcell (lbl0 d) = dcell d.
+Proof. reflexivity. Qed.
+
+Lemma iinv_step : forall done i st0 pr st ind d,
+  Forall wf_inp done ->
+  GInv done st0 ->
+  IInv done i st0 pr st ->
+  ~ In (lbl0 d) (map lbl0 pr) ->
+  length (dvals d) = isize i (dcell d) ->
+  cnt st0 (dcell d) + isize i (dcell d) <= shape nv nc (dcell d) ->
+  IInv done i st0 (pr ++ [d]) (data_step nv nc st ind d).
+Proof.
+  intros done i st0 pr st ind d Hwfd HG HI Hfresh Hlen Hroom.
+  destruct HI as [Hv Hc Hwf Hrec Hcur].
+  assert (Hcnt : cnt st (dcell d) = cnt st0 (dcell d)) by (apply cnt_eq; assumption).
+  destruct (data_step_spec nv nc st ind d) as [v0 [Hv0 [Hnew [Hoth [Hv' Hc']]]]].
+  { intros v Hl. destruct (Hwf _ _ Hl) as [_ [Hlen' [_ Hb]]]. rewrite lcell_lbl0 in *.
+    split; [rewrite Hcnt; apply Hb; assumption | assumption]. }
+  { rewrite Hcnt, Hlen. assumption. }
+  rewrite Hcnt in Hnew.
+  (* facts about the previous content v0 of the target entry *)
+  assert (Hv0len : length v0 = shape nv nc (dcell d)).
+  { destruct Hv0 as [Hl | [_ ->]]; [destruct (Hwf _ _ Hl) as [_ [H _]]; exact H | apply repeat_length]. }
+  assert (Hv0blank : blank_from v0 (cnt st0 (dcell d))).
+  { destruct Hv0 as [Hl | [_ ->]]; [destruct (Hwf _ _ Hl) as [_ [_ [_ H]]]; apply H; assumption | apply blank_repeat]. }
+  assert (Hfit : cnt st0 (dcell d) + length (dvals d) <= length v0) by (rewrite Hv0len, Hlen; assumption).
+  constructor.
+  - congruence.
+  - congruence.
+  - intros l v Hl. destruct (label_eqb l (lbl0 d)) eqn:E.
+    + apply label_eqb_eq in E; subst l. rewrite Hnew in Hl. inversion Hl; subst v. rewrite lcell_lbl0.
+      split; [reflexivity|]. split; [rewrite splice_length by assumption; assumption|]. split.
+      * apply blank_splice; try assumption. rewrite Hlen. lia.
+      * intros Hn. exfalso. apply Hn. rewrite map_app. apply in_or_app. right. left. reflexivity.
+    + assert (Hne : l <> lbl0 d) by (intro; subst; rewrite label_eqb_refl in E; discriminate).
+      rewrite Hoth in Hl by assumption. destruct (Hwf _ _ Hl) as [H1 [H2 [H3 H4]]].
+      repeat split; try assumption. intros Hn. apply H4. intros Hin. apply Hn.
+      rewrite map_app. apply in_or_app. left. assumption.
+  - intros k i' d' Hk Hd'. destruct (Hrec k i' d' Hk Hd') as [v [Hl Hs]].
+    destruct (label_eqb (lbl0 d') (lbl0 d)) eqn:E.
+    + apply label_eqb_eq in E. rewrite E in *.
+      assert (v0 = v) by (destruct Hv0 as [H|[H _]]; congruence). subst v0.
+      exists (splice v (cnt st0 (dcell d)) (dvals d)). split; [assumption|].
+      assert (Hdc : dcell d' = dcell d) by (unfold lbl0 in E; congruence).
+      rewrite <- Hs at 2. rewrite Hdc. apply slice_splice_before; [|assumption].
+      pose proof (doff_le done k i' (dcell d) Hk) as Hle.
+      assert (length (dvals d') = isize i' (dcell d)).
+      { rewrite Forall_forall in Hwfd. destruct (Hwfd i' (nth_error_In _ _ Hk)) as [_ Hall].
+        rewrite Forall_forall in Hall. rewrite (Hall d' Hd'). rewrite Hdc. reflexivity. }
+      destruct HG as [Gv Gc _ _]. unfold cnt. destruct (dcell d); [rewrite Gc | rewrite Gv]; lia.
+    + assert (Hne : lbl0 d' <> lbl0 d) by (intro HH; rewrite HH, label_eqb_refl in E; discriminate).
+      exists v. split; [rewrite Hoth by assumption; assumption | assumption].
+  - intros d' Hd'. apply in_app_or in Hd' as [Hd'|[<-|[]]].
+    + destruct (Hcur d' Hd') as [v [Hl Hs]].
+      assert (Hne : lbl0 d' <> lbl0 d).
+      { intros HH. apply Hfresh. rewrite <- HH. apply in_map. assumption. }
+      exists v. split; [rewrite Hoth by assumption; assumption | assumption].
+    + exists (splice v0 (cnt st0 (dcell d)) (dvals d)). split; [assumption|].
+      apply slice_splice_same. assumption.
+Qed.
+
+Lemma iinv_steps : forall done i st0 rest pr st ind,
+  Forall wf_inp done -> GInv done st0 ->
+  IInv done i st0 pr st ->
+  NoDup (map lbl0 (pr ++ rest)) ->
+  Forall (fun d => length (dvals d) = isize i (dcell d)) rest ->
+  (forall c, cnt st0 c + isize i c <= shape nv nc c) ->
+  IInv done i st0 (pr ++ rest) (data_steps nv nc st ind rest).
+Proof.
+  intros done i st0 rest. induction rest as [|d r IH]; intros pr st ind Hwfd HG HI Hnd Hlen Hroom.
+  - rewrite app_nil_r. exact HI.
+  - simpl. replace (pr ++ d :: r) with ((pr ++ [d]) ++ r) by (rewrite <- app_assoc; reflexivity).
+    inversion Hlen as [|? ? Hd Hr]; subst.
+    apply IH; try assumption.
+    + apply iinv_step; try assumption.
+      * rewrite map_app in Hnd. simpl in Hnd. apply NoDup_remove_2 in Hnd.
+        intros Hin. apply Hnd. apply in_or_app. left. assumption.
+      * apply Hroom.
+    + rewrite <- app_assoc. exact Hnd.
+Qed.
+
+Lemma ginv_input : forall done i st0,
+  Forall wf_inp done -> wf_inp i -> GInv done st0 ->
+  (forall c, cnt st0 c + isize i c <= shape nv nc c) ->
+  GInv (done ++ [i]) (input_step nv nc st0 i).
+Proof.
+  intros done i st0 Hwfd [Hnd Hlen] HG Hroom.
+  assert (HI0 : IInv done i st0 [] st0).
+  { destruct HG as [Gv Gc Gwf Grec]. constructor; try reflexivity.
+    - intros l v Hl. destruct (Gwf l v Hl) as [H1 [H2 H3]]. repeat split; try assumption.
+      + eapply blank_from_mono; [exact H3|lia].
+      + intros _. exact H3.
+    - exact Grec.
+    - intros d []. }
+  pose proof (iinv_steps done i st0 (ds i) [] st0 0 Hwfd HG HI0 Hnd Hlen Hroom) as HI.
+  simpl in HI. destruct HI as [Iv Ic Iwf Irec Icur]. destruct HG as [Gv Gc Gwf Grec].
+  unfold input_step. constructor; cbn [md vcount ccount].
+  - rewrite Iv, Gv. change (length (vs i)) with (isize i false). rewrite total_app. reflexivity.
+  - rewrite Ic, Gc. change (length (cs i)) with (isize i true). rewrite total_app. reflexivity.
+  - intros l v Hl. destruct (Iwf l v Hl) as [H1 [H2 [H3 _]]]. repeat split; try assumption.
+    unfold cnt in *. cbn [md vcount ccount]. destruct (lcell l); unfold isize in H3; [rewrite Ic | rewrite Iv]; exact H3.
+  - intros k i' d Hk Hd.
+    destruct (Nat.lt_ge_cases k (length done)) as [Hlt|Hge].
+    + rewrite nth_error_app1 in Hk by assumption. rewrite doff_app by lia. eapply Irec; eassumption.
+    + assert (k = length done).
+      { assert (k < length (done ++ [i])) by (apply nth_error_Some; congruence). rewrite app_length in *. simpl in *. lia. }
+      subst k. rewrite nth_error_app2, Nat.sub_diag in Hk by lia. simpl in Hk. inversion Hk; subst i'.
+      destruct (Icur d Hd) as [v [Hl Hs]]. exists v. split; [assumption|].
+      rewrite doff_app by lia. rewrite doff_total.
+      replace (total done (dcell d)) with (cnt st0 (dcell d)); [assumption|].
+      unfold cnt. destruct (dcell d); assumption.
+Qed.
+
+Lemma ginv_fold : forall rest done st,
+  Forall wf_inp done -> Forall wf_inp rest -> GInv done st ->
+  (forall c, total (done ++ rest) c <= shape nv nc c) ->
+  GInv (done ++ rest) (fold_left (input_step nv nc) rest st).
+Proof.
+  induction rest as [|i r IH]; intros done st Hwd Hwr HG Hroom.
+  - rewrite app_nil_r. exact HG.
+  - simpl. inversion Hwr as [|? ? Hi Hr]; subst.
+    replace (done ++ i :: r) with ((done ++ [i]) ++ r) in * by (rewrite <- app_assoc; reflexivity).
+    apply IH; try assumption.
+    + apply Forall_app. split; [assumption | constructor; [assumption | constructor]].
+    + apply ginv_input; try assumption.
+      intros c. specialize (Hroom c). destruct HG as [Gv Gc _ _].
+      assert (total ((done ++ [i]) ++ r) c >= total (done ++ [i]) c).
+      { destruct c; unfold total, merge_verts; rewrite !map_app, !concat_app, !app_length; lia. }
+      rewrite total_app in *. unfold cnt. destruct c; [rewrite Gc | rewrite Gv]; lia.
+Qed.
+End MergeData.
+
+(* every data set of every input is found in the merged object under its own name/type/association, with its
+   values at the offset of its input; elsewhere the array holds the no-data value unless another input wrote there *)
+Lemma merged_data : forall ins,
+  Forall wf_inp ins ->
+  forall k i d, nth_error ins k = Some i -> In d (ds i) ->
+  exists v, lookup (lbl0 d) (merge_data ins) = Some v
+         /\ length v = total ins (dcell d)
+         /\ slice v (doff ins k (dcell d)) (length (dvals d)) = dvals d.
+Proof.
+  intros ins Hwf k i d Hk Hd. unfold merge_data.
+  set (nv := length (merge_verts ins)). set (nc := length (concat (map cs ins))).
+  assert (HG0 : GInv nv nc [] {| md := []; vcount := 0; ccount := 0 |}).
+  { constructor; try reflexivity.
+    - intros l v Hl. discriminate.
+    - intros k' i' d' Hk'. destruct k'; discriminate. }
+  pose proof (ginv_fold nv nc ins [] _ (Forall_nil _) Hwf HG0) as HG. simpl in HG.
+  assert (Hroom : forall c, total ins c <= shape nv nc c) by (intros [|]; unfold total, shape; subst nv nc; lia).
+  specialize (HG Hroom). destruct HG as [_ _ Gwf Grec].
+  destruct (Grec k i d Hk Hd) as [v [Hl Hs]]. exists v. split; [assumption|]. split; [|assumption].
+  destruct (Gwf _ _ Hl) as [_ [Hlen _]]. rewrite Hlen. reflexivity.
+Qed.
+
+(* no-data elsewhere: a position of a merged array that no input's data set of that label covers is blank *)
+Lemma merged_data_names : forall ins l v,
+  Forall wf_inp ins -> lookup l (merge_data ins) = Some v -> lren l = None.
+Proof.
+  intros ins l v Hwf Hl. unfold merge_data in Hl.
+  set (nv := length (merge_verts ins)) in *. set (nc := length (concat (map cs ins))) in *.
+  assert (HG0 : GInv nv nc [] {| md := []; vcount := 0; ccount := 0 |}).
+  { constructor; try reflexivity.
+    - intros l' v' Hl'. discriminate.
+    - intros k' i' d' Hk'. destruct k'; discriminate. }
+  pose proof (ginv_fold nv nc ins [] _ (Forall_nil _) Hwf HG0) as HG. simpl in HG.
+  assert (Hroom : forall c, total ins c <= shape nv nc c) by (intros [|]; unfold total, shape; subst nv nc; lia).
+  specialize (HG Hroom). destruct HG as [_ _ Gwf _]. destruct (Gwf _ _ Hl) as [H _]. exact H.
+Qed.
